@@ -115,6 +115,7 @@ def run_obligation(prop, o, tier, seed, scratch):
     rep, functions = run_replay(prop, o.id, tier, journal, rout, n_wit) if n_wit else ({}, [])
 
     viol, unknown, validated, ok_marks = [], {}, 0, set()
+    err_samples = [{'where': 'symbolic', 'witness': e.get('w'), 'tb': e['tb']} for e in paths if e.get('tb')][:2]
     samples = []
 
     def unk(reason):
@@ -145,6 +146,8 @@ def run_obligation(prop, o, tier, seed, scratch):
                 unk(e.get('why', 'unknown'))
         else:
             unk('replay_' + cv + ':' + r.get('why', ''))
+            if len(err_samples) < 2:
+                err_samples.append({'where': 'replay', 'witness': e['w'], 'tb': r.get('tb', r.get('why'))})
     missing_marks = [m for m in o.marks if m not in ok_marks]
     exhausted = bool(st.get('exhausted'))
     res = dict(id=o.id, paths=len(paths), validated=validated, unknown=unknown, exhausted=exhausted,
@@ -152,7 +155,7 @@ def run_obligation(prop, o, tier, seed, scratch):
                solver_s=st.get('solver_s', 0.0), cpu_s=st.get('cpu_s'), wall_s=round(time.time() - t0, 1),
                marks_hit=sorted(ok_marks), marks_missing=missing_marks, violations=viol, aborted=aborted,
                bounds=o.bounds, outside=o.out, expected_exhaustive=o.exhaustive, functions=functions,
-               samples=samples, fstrings_stubbed=st.get('fstrings_stubbed'))
+               samples=samples, fstrings_stubbed=st.get('fstrings_stubbed'), error_samples=err_samples)
     if viol:
         res['verdict'] = 'VIOLATION'
     elif aborted or unknown or not paths:
@@ -279,6 +282,9 @@ def main():
         print('%-22s %-38s paths=%-5d validated=%-5d exhausted=%-5s solver=%d/%.1fs cpu=%s wall=%s%s%s%s' % (
             r['verdict'], r['id'], r['paths'], r['validated'], r['exhausted'], r['solver_calls'], r['solver_s'],
             r['cpu_s'], r['wall_s'], u, mm, ab))
+        for es in r.get('error_samples', []):
+            print('    harness error (%s) witness=%s\n      %s' % (es['where'], json.dumps(es['witness'])[:300],
+                                                                   str(es['tb']).strip().replace('\n', '\n      ')[-900:]))
     for kid, (k, keys) in sorted(listed.items()):
         print('KNOWN-FINDING: property=%s %s [%s; %d witnesses in %s]' % (
             prop, k['what'], kid, len(keys), ','.join(sorted({x[0] for x in keys}))[:120]))
